@@ -302,15 +302,15 @@ package storage
 //@   requires wfState(s)
 //@   modifies exhausted(s.cache), exhausted(s.txSession)
 //@   ensures !old(exhausted(s.cache)) && vHas(s)[str(key)] ==> err == nil && result == vVal(s)[str(key)]     // C09.read-recent
-//@   ensures !old(exhausted(s.cache)) && !vHas(s)[str(key)] ==> err == nil && len(result) == 0                // C09.deleted-absent
-//@   ensures vHas(s)[str(key)] ==> err == nil && result == vVal(s)[str(key)]                                  // C09.read-recent-gas
+//@   claims !old(exhausted(s.cache)) && !vHas(s)[str(key)] ==> err == nil && len(result) == 0                 // C09.deleted-absent
+//@   claims vHas(s)[str(key)] ==> err == nil && result == vVal(s)[str(key)]                                   // C09.read-recent-gas
 //@   ensures wfState(s)                                                                                       // C09.wf
 
 //@ func (*State).Exists
 //@   requires wfState(s)
 //@   modifies exhausted(s.cache), exhausted(s.txSession)
 //@   ensures !old(exhausted(s.cache)) && vHas(s)[str(key)] ==> result                                         // C09.read-recent
-//@   ensures !old(exhausted(s.cache)) && !vHas(s)[str(key)] ==> !result                                       // C09.deleted-absent
+//@   claims !old(exhausted(s.cache)) && !vHas(s)[str(key)] ==> !result                                        // C09.deleted-absent
 //@   ensures wfState(s)                                                                                       // C09.wf
 
 //@ func (*State).Set
